@@ -274,7 +274,9 @@ def gen_decimal(ctx, rng, kind, dec, ths):
     return length, rule, cells, flags
 
 
-CHOICE_POOL = ["red", "green", "Blue", "x", "A", "a", "yes", "no", "N_A", "item1", "ä", "naïve", "grün", "a b", "a,b", "1", "42", "-", "ΩΩ", "it's"]
+CHOICE_POOL = ["red", "green", "Blue", "x", "A", "a", "yes", "no", "N_A", "item1", "ä", "naïve", "grün", "a b", "a,b", "1", "42", "-", "ΩΩ", "it's",
+               # values with a quote character at their edge (inches, feet, quoted words): quoted with the other kind
+               '12"', "5'", "'yes'", '"x"', "'", '"']
 
 
 def spell_choice(rng, item):
@@ -587,7 +589,8 @@ def end_to_end(ctx, mon, type_name, empty, length, rule, dec, ths, cells, flags)
     late = bool(separators) and (len(cells) + len(length) + len(rule)) % 2 == 1
     if not late:
         rows.extend(separators)
-    rows.append(["F", "f", "", "X" if empty else "", length, type_name, rule])
+    # (a length cell that holds nothing but blanks - an aligned CSV - declares no length)
+    rows.append(["F", "f", "", "X" if empty else "", length if length else ("   " if len(cells) % 2 else ""), type_name, rule])
     rows.append(["F", "tail", "", "", "", "Text", ""])
     if late:
         rows.extend(separators)
